@@ -75,6 +75,7 @@ def step (_ : Unit) (toks : List String) : Unit × String :=
       match State.buildTxList g (fun b => (Wire.decodeTx b).map (·.2)) raw with
       | .ok n => ((), s!"ok {n}")
       | .error e => ((), s!"reject {e.replace " " "-"}")
+      | .panic e => ((), s!"panic {e.replace " " "_"}")
     | _, _ => bad
   | ["m", n] =>
     match n.toNat? with
